@@ -137,7 +137,8 @@ struct Runner {
     int lastDone = -1, lastTotal = -1;
     for (size_t i = 0; i < gSamples.size(); i++) {
       const int d = gSamples[i].first, t = gSamples[i].second;
-      if (t == lastTotal && d < lastDone) { fail("progress:monotone", {{"k", k}, {"what", what}, {"at", i}, {"prev", lastDone}, {"now", d}, {"total", t}}); break; }
+      if (t == lastTotal && d < lastDone && d != 0) {   // d == 0: GetCsgLeafNode reset the counters for a new (sub-)evaluation
+        fail("progress:monotone", {{"k", k}, {"what", what}, {"at", i}, {"prev", lastDone}, {"now", d}, {"total", t}}); break; }
       if (t != 0 && d > t) { fail("progress:exceeds1", {{"k", k}, {"what", what}, {"at", i}, {"done", d}, {"total", t}}); break; }
       lastDone = d; lastTotal = t;
     }
